@@ -449,8 +449,11 @@ class DirichletClassificationLikelihood(FixedNoiseGaussianLikelihood):
 
         old_noise_covar = self.noise_covar
         self.noise_covar = None  # pyre-fixme[8]
-        fantasy_liklihood = deepcopy(self)
-        self.noise_covar = old_noise_covar
+        try:
+            fantasy_liklihood = deepcopy(self)
+        finally:
+            # put the noise model back even when the copy fails, so that the source likelihood stays usable
+            self.noise_covar = old_noise_covar
 
         old_noise = old_noise_covar.noise
         new_targets = kwargs.get("targets")
